@@ -143,6 +143,27 @@ def run_tv(module, cfg, trace, timeout=900, tag=None):
     return bad, cons[0]["consumed"], cons[0]["lines"]
 
 
+def run_apalache(module, steps, timeout=1500, tag="ap"):
+    """Apalache (symbolic) checks of a typed module under spec/apalache: each step is a list of command-line options
+    (e.g. inductive-invariant initiation and consecution).  Returns a summary; raises ToolError when a step fails."""
+    out_dir = os.path.join(WORK, "apalache_" + tag)
+    shutil.rmtree(out_dir, ignore_errors=True)
+    res = []
+    for i, opts in enumerate(steps):
+        t0 = time.time()
+        cmd = ["timeout", str(timeout), "apalache-mc", "check", f"--out-dir={out_dir}"] + opts + [module]
+        rc, out = sh(cmd, cwd=os.path.join(SPEC, "apalache"), timeout=timeout + 60)
+        ok = "EXITCODE: OK" in out
+        res.append({"model": "apalache:" + module, "cfg": " ".join(opts), "ok": ok, "wall_s": round(time.time() - t0, 1)})
+        if not ok:
+            logp = os.path.join(WORK, f"apalache_{tag}_{i}.log")
+            with open(logp, "w") as f:
+                f.write(out)
+            raise ToolError(f"apalache step {opts} on {module} did not pass (rc={rc}); see {logp}")
+    shutil.rmtree(out_dir, ignore_errors=True)
+    return res
+
+
 def split_trace(path, nchunks):
     """Splits an ndjson trace at reset events into <= nchunks files of similar size."""
     runs, cur = [], []
